@@ -405,6 +405,10 @@ class Verdict:
         return True
 
     def finish(self, level, coverage, assumptions):
+        # every listed finding of this property is announced on every run (reproduced in this run or not)
+        for k in self.known.get('findings', []):
+            if k.get('property') == self.pid and k['id'] not in [h['id'] for h in self.known_hits]:
+                print('KNOWN-FINDING: property=%s %s (listed in known_findings.json; not reproduced by this run)' % (self.pid, k['what']), flush=True)
         ev = {
             'property_id': self.pid, 'tier': self.tier, 'seed': self.seed, 'level': level,
             'coverage': coverage, 'assumptions': assumptions, 'wall_s': round(time.time() - self.t0, 1),
